@@ -63,7 +63,9 @@ CLAIMED.update({
               "is_single_crossing_conflict_sets are compared with both references (exhaustive m<=4, chains with every choice of the first "
               "two stored orders, switch-back negatives, n<m and n>=m paths); every returned sequence goes through the verified checker.",
               "Deepening: is_single_crossing itself (scores, stable sort / bucket array, verification pass) is mirrored step by step and proved "
-              "sound, complete and error-free (sc_algo_correct, sc_algo_no_error); the mirror is compared with the code on every case.", "C04"),
+              "sound, complete and error-free (sc_algo_correct, sc_algo_no_error); is_single_crossing_conflict_sets is mirrored literally and proved equal to the "
+              "reference (conflict_sets_algo_eq, conflict_sets_algo_correct); the mirrors are compared with the code on every case; sessions on one instance "
+              "object / several instances in one process check purity and absence of cross-call state.", "C04"),
     "C06": _m("Coq theorems for the seven rules (mirror models of singlewinner.py + decorators + is_approval): winner set = exactly the "
               "maximisers (veto: minimisers) of the textbook per-voter score on the expanded profile (Copeland = contests won, SAV in exact "
               "rationals), regrouping invariance, type guards give PreferenceIncompatibleError. Exhaustive (m<=3) and tie-heavy random "
@@ -127,8 +129,9 @@ CLAIMED.update({
               "Deepening: the PQ-tree (reorder_sets, P/Q.set_contiguous with their two passes and in-place flatten, simplify, reverse) is mirrored "
               "and proved total and SOUND (pq_reorder_sound: every returned arrangement keeps each element's sets consecutive; chained down to "
               "solve_consecutive_ones, isC1P and the six recognisers: pq_*_sound); the implementation's reorder_sets result must equal the "
-              "mirror's exactly on every family. PQ-tree COMPLETENESS (ValueError only if no arrangement exists) is not proved: compared with "
-              "the proved references up to 7/8 columns and with planted certificates beyond.", "C05"),
+              "mirror's exactly on every family. PQ-tree COMPLETENESS is proved as well (pq_reorder_complete: ValueError only if no arrangement exists, "
+              "for every visiting order; pq_contract, pq_solve_correct, pq_isC1P_correct, pq_*_complete for the six recognisers); the comparison with the "
+              "proved references up to 7/8 columns and with planted certificates beyond stays as an independent cross-check.", "C05"),
     "C10": _m("Coq theorems about the entry-point layer on top of the three parser models: type gate (TypeError, nothing loaded), "
               "dispatch on the extension, the three line splitters give the same stripped lines, all parsers depend on a line only "
               "through strip (and remove-spaces for ballot lines), every entry point on every restyling (LF/CRLF/CR, padding, blanks at "
@@ -143,7 +146,9 @@ CLAIMED.update({
               "(ilp_sp_feasible_iff, decoding of the axis), strict agreement, TypeError gate, heredity, invariance. "
               "is_single_peaked_axis compared on every axis (m<=4) and random; PQ-tree and ILP verdicts vs the decider (thousands of "
               "near-axis profiles m=5..7); ILP axis through the checker; the constraints python-mip receives compared with the mirror.",
-              "PQ-tree internals and CBC are not modelled; is_single_peaked (strict) is compared, not proved.", "C11"),
+              "Deepening: is_single_peaked_pq_tree is mirrored on top of the mirrored PQ-tree and proved to decide weak-order single-peakedness "
+              "(pq_tree_sp_sound, pq_tree_sp_complete, pq_tree_sp_correct); its verdict is compared with the code (c11.pq_exact). CBC is trusted "
+              "(the ILP's answers are checked case by case); is_single_peaked (strict) has its own proved mirror under C03.", "C11"),
     "C18": _r("Coq theorems: partition checker equivalent to 'axes disjoint, cover every alternative once, each single-peaked for the "
               "restricted profile', set-partition enumeration sound and complete, minimum number of axes correct for every size, "
               "bounds 1 <= min <= ceil(m/2), the brute-force contract (valid + minimum iff <= k, else None), invariance. "
